@@ -45,3 +45,12 @@ prop(
     mem_gb=10,
     cbmc_args=_CBMC,
 )
+
+prop(
+    "C03",
+    level="other",
+    explanation="(in progress)", bounds="", outside="", level_text="", level_note="", technique="", assumptions=[],
+    timeout={"quick": 600, "thorough": 1800},
+    mem_gb=10,
+    cbmc_args=_CBMC,
+)
